@@ -13,6 +13,21 @@ import pandapipes as pp
 
 RES_PREFIX = "res_"
 
+TABLE_OF = {"create_junction": "junction", "create_sink": "sink", "create_source": "source",
+            "create_mass_storage": "mass_storage", "create_ext_grid": "ext_grid",
+            "create_heat_exchanger": "heat_exchanger", "create_pipe": "pipe",
+            "create_pipe_from_parameters": "pipe", "create_valve": "valve", "create_pump": "pump",
+            "create_pump_from_parameters": "pump",
+            "create_circ_pump_const_pressure": "circ_pump_pressure",
+            "create_circ_pump_const_mass_flow": "circ_pump_mass", "create_compressor": "compressor",
+            "create_pressure_control": "press_control", "create_flow_control": "flow_control",
+            "create_heat_consumer": "heat_consumer",
+            "create_junctions": "junction", "create_sinks": "sink", "create_sources": "source",
+            "create_ext_grids": "ext_grid", "create_pipes": "pipe", "create_pipes_from_parameters": "pipe",
+            "create_valves": "valve", "create_pressure_controls": "press_control",
+            "create_flow_controls": "flow_control", "create_heat_exchangers": "heat_exchanger",
+            "create_heat_consumers": "heat_consumer"}
+
 
 def build(program):
     net = pp.create_empty_network(name=program.get("name", ""), fluid=program["fluid"])
@@ -105,7 +120,22 @@ def results_equal_bitwise(a, b):
     return diffs
 
 
-def results_close(a, b, rtol=1e-9, atol=1e-12, tables=None, index_map=None):
+ZERO_FLOW_SENSITIVE = ("lambda", "reynolds")
+# absolute noise floor per result column family when two *different* floating point programs are
+# compared after solves with tol_m = tol_p = 1e-9 (a flowless loop converges only linearly, so its
+# circulating flow is decided by the stopping rule: |mdot| <~ 1e-8 kg/s, v = mdot/(rho*A) <~ 1e-5 m/s)
+COLUMN_ATOL = (("v_", 1e-5), ("vdot", 1e-6), ("mdot", 1e-7), ("reynolds", 1.0), ("qext", 1e-3),
+               ("compr_power", 1e-9))
+
+
+def _atol_for(col, default):
+    for prefix, a in COLUMN_ATOL:
+        if col.startswith(prefix):
+            return max(a, default)
+    return default
+
+
+def results_close(a, b, rtol=1e-9, atol=1e-12, tables=None, index_map=None, mask_zero_flow=False):
     """Tolerance comparison (different fp programs). index_map: {table: {idx_a: idx_b}}."""
     diffs = []
     ta, tb = result_tables(a), result_tables(b)
@@ -129,14 +159,26 @@ def results_close(a, b, rtol=1e-9, atol=1e-12, tables=None, index_map=None):
         elif len(da) != len(db):
             diffs.append("%s.len" % t)
             continue
+        zero_rows = None
+        if mask_zero_flow and "mdot_from_kg_per_s" in da.columns:
+            # friction factor / Reynolds number of a branch without flow are 0/0-like quantities:
+            # round-off decides them, so they are not compared on (numerically) flowless rows
+            ma = np.abs(da["mdot_from_kg_per_s"].values.astype(np.float64))
+            mb = np.abs(db["mdot_from_kg_per_s"].values.astype(np.float64))
+            scale = max(np.nanmax(ma) if len(ma) and not np.all(np.isnan(ma)) else 0.0, 1e-3)
+            zero_rows = (ma < 1e-6 * scale) | (mb < 1e-6 * scale)
         for c in da.columns:
             va = da[c].values.astype(np.float64)
             vb = db[c].values.astype(np.float64)
+            if zero_rows is not None and c in ZERO_FLOW_SENSITIVE:
+                va = va[~zero_rows]
+                vb = vb[~zero_rows]
             nan_a, nan_b = np.isnan(va), np.isnan(vb)
             if not np.array_equal(nan_a, nan_b):
                 diffs.append("%s.%s:nanpattern" % (t, c))
                 continue
-            ok = np.isclose(va[~nan_a], vb[~nan_b], rtol=rtol, atol=atol)
+            ok = np.isclose(va[~nan_a], vb[~nan_b], rtol=rtol,
+                            atol=_atol_for(c, atol) if mask_zero_flow else atol)
             if not np.all(ok):
                 diffs.append("%s.%s" % (t, c))
     return diffs
